@@ -632,7 +632,7 @@ func (g *vfC29Gen) message(allowBig bool) {
 	}
 	g.wireSz = append(g.wireSz, len(wire))
 	g.rawSz = append(g.rawSz, len(payload))
-	nfrag := rapid.SampledFrom([]int{1, 1, 1, 2, 2, 3, 4}).Draw(rt, g.lbl("nfrag"))
+	nfrag := rapid.SampledFrom([]int{1, 1, 2, 2, 2, 3, 4}).Draw(rt, g.lbl("nfrag"))
 	cuts := make([]int, 0, nfrag+1)
 	cuts = append(cuts, 0)
 	for i := 1; i < nfrag; i++ {
@@ -648,7 +648,7 @@ func (g *vfC29Gen) message(allowBig bool) {
 			b0 |= 0x80
 		}
 		g.frames = append(g.frames, g.frame(b0, wire[cuts[i]:cuts[i+1]], note))
-		if i < nfrag-1 && rapid.IntRange(0, 2).Draw(rt, g.lbl("il")) == 0 {
+		if i < nfrag-1 && rapid.IntRange(0, 1).Draw(rt, g.lbl("il")) == 0 {
 			g.frames = append(g.frames, g.control())
 		}
 	}
@@ -700,7 +700,7 @@ func vfC29Generate(rt *rapid.T, c *vfCase) (vfC29Cfg, []byte, string) {
 	cfg.Abandon = rapid.IntRange(0, 3).Draw(rt, "abandon")
 
 	g := &vfC29Gen{rt: rt, masked: cfg.Server, deflate: cfg.Deflate}
-	nitems := rapid.IntRange(0, 5).Draw(rt, "nitems")
+	nitems := rapid.IntRange(0, 6).Draw(rt, "nitems")
 	for i := 0; i < nitems; i++ {
 		if rapid.IntRange(0, 3).Draw(rt, g.lbl("item")) == 0 {
 			g.frames = append(g.frames, g.control())
@@ -933,17 +933,25 @@ func vfC29Check(c *vfCase, cfg vfC29Cfg, stream []byte) (string, *vfWSRefResult,
 			_, curRun, curV = eval(cur)
 			continue
 		}
-		if cur.ReadLimit > 0 && abandoned {
+		early := false
+		for _, m := range ref.Messages() {
+			if m.EarlyFinal {
+				early = true
+			}
+		}
+		if cur.ReadLimit > 0 && (abandoned || early) {
 			// Conn.readLength is reset on entry of NextReader, not at the first frame of a message: when the
-			// application abandons a message (allowed by the NextReader contract) the skipped frames are counted
-			// against the limit of the FOLLOWING message and the abandoned message itself is no longer checked.
+			// application abandons a message (allowed by the NextReader contract), or the inflater finishes before
+			// the last frame of a message, the skipped frames are counted against the limit of the FOLLOWING message
+			// and the rest of the unfinished message itself is no longer checked. Attributed only if the case passes
+			// (a) when every message is read completely and (b) without a read limit (regular bufio.Reader in both).
 			cfgA := cur
-			cfgA.Modes = []int{0}
+			cfgA.Modes, cfgA.SmallBr = []int{0}, false
 			_, _, vA := eval(cfgA)
 			cfgB := cur
-			cfgB.ReadLimit = 0
+			cfgB.ReadLimit, cfgB.SmallBr = 0, false
 			_, _, vB := eval(cfgB)
-			if (vA.Msg == "" || vA.Key != "") && (vB.Msg == "" || vB.Key != "") {
+			if (vA.Msg == "" || vA.Key != "" || early) && (vB.Msg == "" || vB.Key != "") {
 				keys = append(keys, vfC29KeyLimitSkip)
 				break
 			}
